@@ -7,7 +7,7 @@ from __future__ import annotations
 import ast
 import re
 
-from ..core import AnalysisError, Func, Program, Report, src, walk_own
+from ..core import parent_of, AnalysisError, Func, Program, Report, src, walk_own
 from ..gates import view
 from ..paths import TooManyPaths, enum_paths
 from .rt import truth_tests
@@ -569,6 +569,15 @@ def rule_rt4(prog: Program, report: Report) -> None:
     report.count("RT4 truthiness tests of Optional[int] values", n)
 
 
+def _safe_redundant(v, x) -> bool:  # noqa: ANN001
+    from ..redundant import exit_is_redundant
+
+    try:
+        return exit_is_redundant(v, x)
+    except (RecursionError, ValueError, KeyError, AttributeError, TypeError, SyntaxError):
+        return False
+
+
 # ---------------------------------------------------------------------------- RX-add
 def rule_rx_added_exit(prog: Program, report: Report, pid: str) -> None:
     """An early exit was *added* to an anchored function: every statement and every test of the
@@ -640,6 +649,14 @@ def rule_rx_added_exit(prog: Program, report: Report, pid: str) -> None:
             seen.add(t)
             if isinstance(st, ast.Raise):
                 continue  # an added refusal by exception is a stricter precondition, judged by RQ where it matters
+            from ..redundant import exit_is_redundant
+
+            same_text = [x for x in stmts if " ".join(src(x).split()) == t]
+            cand = [x for x in same_text if isinstance(parent_of(x), ast.If) and not parent_of(x).orelse and parent_of(x).body[-1] is x and " ".join(src(parent_of(x).test).split()) not in tests_old]
+            if cand and all(_safe_redundant(v, x) for x in cand):
+                report.ob("RX-add", key, f"added `{t[:40]}` is redundant: under its condition the unchanged code performs no effect and ends the same way")
+                continue
+            st = cand[0] if cand else st
             guards = sorted(v.guards(st, resolve=False))
             report.violate("RX-add", fn, st, f"added early exit `{t[:60]}`", f"every statement and test of the reviewed {fn.qual} is unchanged, and `{t[:60]}` was added under {guards[:4]}: the function now stops there in cases where the reviewed code went on (nothing was removed, so this is not a restructuring)", what="no exit is added to an otherwise unchanged anchored function")
             flagged = True
